@@ -11,3 +11,6 @@ import BalmProofs.Props.C08
 #print axioms Balm.Impl.regenLoop_small
 #print axioms Balm.Impl.solverOK_take
 #print axioms Balm.Impl.checkNfvs_sound
+#print axioms Balm.Impl.symbolicSeeds_checked
+#print axioms Balm.Impl.nodeSeeds_checked
+#print axioms Balm.Impl.symHypB_spec
